@@ -144,6 +144,7 @@ def _anc(n):
 
 
 def run(ctx: Ctx) -> None:
+    tableau.rule_fresh_storage(ctx)
     from .c11 import rule_inverse_blocks
     rule_inverse_blocks(ctx)
     from ..rules import memo as _memo
@@ -172,6 +173,8 @@ def _hoist(src: str) -> str:
 
 
 KNOCKOUTS = [
+    Knockout("stab-phase-asarray", tableau.TABLEAU, sub_once("            self._phase = np.copy(phase).astype(int)", "            self._phase = np.asarray(phase, dtype=int)"), "own.fresh-storage", "aliases its argument"),
+    Knockout("clifford-phase-iphase-shared", tableau.CTABLEAU, sub_once("        self._iphase = np.zeros(2 * self.n_qubits).astype(int)\n", "        self._iphase = self._phase\n"), "own.fresh-storage", "aliases"),
     Knockout("eq-drop-phase", TABLEAU, sub_once("            return np.all(self.phase == other.phase) and np.array_equal(\n                self.table.astype(int), other.table.astype(int)\n            )",
                                                  "            return np.array_equal(\n                self.table.astype(int), other.table.astype(int)\n            )"),
              "cmp.fields", "StabilizerTableau.__eq__"),
